@@ -29,8 +29,9 @@ ASSUMPTIONS = [
     "RefSdoServer block download follows CiA 301: out-of-sequence segments are ignored, the sub-block ends with the "
     "segment numbered blksize or carrying c=1, the acknowledge names the last in-order segment, a stalled sub-block is aborted with 0x05040000",
     "a non-zero CRC field sent although the client did not announce CRC support is tolerated (observation, not judged)",
-    "the payload is written with one write() call or in chunks that are multiples of 7 (BufferedWriter cannot carry "
-    "other chunkings over a raw stream that returns None mid-stream; outside this property's quantifier)",
+    "the payload is written with one write() call or in chunks of 7, 14, 70, 10, 100 or 512 bytes; for chunks that are not multiples of 7 "
+    "BufferedWriter has to carry a tail over a raw stream that takes nothing (None) mid-stream - where CPython gives up with BlockingIOError "
+    "(anywhere in the exception chain) the run is an observation, outside this property's quantifier; where it gets through, the run is judged",
     "'fails visibly' = any exception out of the with-block; the statement does not name its type",
 ]
 COMPONENTS = {
@@ -180,7 +181,7 @@ def scenario(ctx):
         # a value whose CRC-16 is 0x0000 (any data followed by its own checksum): a checksum of zero is a checksum
         data = data[:-2] + crc16_xmodem(data[:-2]).to_bytes(2, "big")
         ctx.probe("crc-is-zero")
-    chunk = (0, 7, 14, 70)[ctx.choice(4, "chunk")]
+    chunk = (0, 7, 14, 70, 10, 100, 512)[ctx.choice(7, "chunk")]
     buffering = (1024, 7, 4096)[ctx.choice(3, "buffering")]
     if plan.drop_ack == -1:
         # the acknowledge of the last sub-block: find out how many there are first
@@ -218,6 +219,15 @@ def scenario(ctx):
     res, exc = call(do)
     plan.active = False
     ctx.drain()
+    chain, x = [], exc
+    while x is not None and len(chain) < 8:
+        chain.append(x)
+        x = x.__context__ if x.__context__ is not None else x.__cause__
+    if chunk % 7 and any(isinstance(x, BlockingIOError) for x in chain):
+        # chunks that are not multiples of 7 rely on BufferedWriter's handling of a raw stream that takes nothing (None) in the
+        # middle of the payload; where CPython gives up with BlockingIOError the chunking is outside the quantifier (observation)
+        ctx.observe("BufferedWriter gave up (BlockingIOError) on a chunking that is not a multiple of 7")
+        return
     fired = plan.fired > 0
     crc_on = creq and csup
     what = "block download %04X:%02X len=%d (%d segments) blksizes=%s crc(client=%s,server=%s) fault=%s@%s" % (
